@@ -63,9 +63,9 @@ func enumLists(a []cueShape, max int, ordered, nonDecEnds bool, yield func(lm.Li
 }
 
 const (
-	ns = int64(1)
-	ms = int64(1000000)
-	sec = 1000 * ms
+	ns   = int64(1)
+	ms   = int64(1000000)
+	sec  = 1000 * ms
 	hour = 3600 * sec
 )
 
